@@ -542,7 +542,35 @@ impl Property for C06 {
 
     /// publishes abandoned among 31..300 outstanding operations: the exchange on the wire goes on
     fn exhaustive(tier: Tier, worker: usize, workers: usize) -> Box<dyn Iterator<Item = Scenario>> {
-        Box::new(crowded_cancellations(worker, workers, tier == Tier::Thorough).into_iter())
+        let mut v = crowded_cancellations(worker, workers, tier == Tier::Thorough);
+        // exchanges outstanding on both sides of the 16-bit wrap of the identifier counter
+        let d = Deco::default();
+        let mut k = 0usize;
+        for off in 65_529u32..=65_535 {
+            for pattern in 0u8..4 {
+                for newest_first in [false, true] {
+                    k += 1;
+                    if k % workers != worker {
+                        continue;
+                    }
+                    let mut events = vec![];
+                    for i in 0..8u8 {
+                        let kind = match (pattern, i % 2) {
+                            (0, _) | (2, 0) | (3, 1) => OpKind::Pub1,
+                            _ => OpKind::Pub2,
+                        };
+                        events.push(Ev::Start { h: 0, kind, settle: false, solo: false });
+                    }
+                    events.push(Ev::Settle);
+                    for _ in 0..16 {
+                        events.push(Ev::In(Inbound::Ack { sel: if newest_first { 65535 } else { 0 }, deco: d }));
+                        events.push(Ev::Settle);
+                    }
+                    v.push(Scenario { receive_max: None, max_packet_size: None, id_offset: off, prologue: 0, events });
+                }
+            }
+        }
+        Box::new(v.into_iter())
     }
 
     fn assumptions() -> Vec<String> {
